@@ -56,6 +56,47 @@ def check_solve(prog: Program, res: Result, prop: str) -> None:
                    "the argument of objective_function is not self.correct_solution applied to the position passed to solve")
 
 
+def check_solve_returns_objective(prog: Program, res: Result, prop: str) -> None:
+    """Task.solve hands the objective's value back unchanged: every return value is (an alias of) the result of the
+    objective_function call.  A return of anything else - a constant, a private attribute, a transformed value - means the
+    recorded cost is not the objective at the position (C02) and breaks the min/max mirror (C12).  Only positively identified
+    other values are reported; an expression that merely cannot be followed is undecided."""
+    fi = prog.func(f"{TASK}.solve")
+    rets = returns_of(fi.node)
+    res.count("chain.solve.returns", len(rets))
+    for r in rets:
+        v = r.value
+        if v is None:
+            res.ob(False)
+            _f(prog, res, prop, f"{prop}.chain.solve-returns-objective-value", r, fi, "Task.solve returns None on a path")
+            continue
+        src = origin(fi.node, v) if isinstance(v, ast.Name) else v
+        if is_call_to(src, "self", "objective_function"):
+            # a Name must have that call as its only definition reaching here
+            if isinstance(v, ast.Name):
+                from .flow import store_sites
+                sites = [s_ for s_ in store_sites(fi.node, v.id)]
+                if len(sites) > 1:
+                    other = [s_ for s_ in sites if not (s_[1] is not None and is_call_to(s_[1], "self", "objective_function"))]
+                    if other:
+                        res.ob(False)
+                        _f(prog, res, prop, f"{prop}.chain.solve-returns-objective-value", other[0][0], fi,
+                           f"Task.solve re-binds `{v.id}` (`{norm(other[0][0], 60)}`) before returning it: the value handed to the "
+                           f"optimizer is not always what objective_function returned")
+                        continue
+            res.ob(True, f"{fi.module.relpath}:{r.lineno} return {norm(v, 50)} is the objective's value", construct_key(prog, r, fi.module))
+            continue
+        if isinstance(src, (ast.Constant, ast.Attribute, ast.BinOp, ast.UnaryOp)) or (
+                isinstance(src, ast.Call) and not any(is_call_to(n_, "self", "objective_function") for n_ in ast.walk(src))
+                and (dotted(src.func) or "").split(".")[0] in ("np", "numpy", "float", "int", "abs", "min", "max", "round", "math")):
+            res.ob(False)
+            _f(prog, res, prop, f"{prop}.chain.solve-returns-objective-value", r, fi,
+               f"Task.solve returns `{norm(src, 60)}` on a path: not the value objective_function returned for the corrected position")
+            continue
+        res.errors.append(f"{fi.module.relpath}:{r.lineno} Task.solve: cannot follow the returned `{norm(v, 50)}` to the "
+                          f"objective_function call (undecided)")
+
+
 def check_correct_solution(prog: Program, res: Result, prop: str) -> None:
     """Task.correct_solution returns one `.correct(c)` per zipped (coordinate, get_variables()) pair."""
     fi = prog.func(f"{TASK}.correct_solution")
